@@ -7,8 +7,9 @@ use bio_verif_harness::aln::*;
 use bio_verif_harness::{Log, Rng};
 use serde_json::json;
 
+#[derive(Clone)]
 enum Al {
-    Tab(Aligner<Box<dyn Fn(u8, u8) -> i32>>),
+    Tab(Aligner<TabFn>),
     Par(Aligner<MatchParams>),
 }
 
@@ -27,13 +28,15 @@ fn make(alpha: &[u8], sc: &Scheme, how: u64, k: usize, w: usize, cap: (usize, us
             })
         }
         _ => {
-            let al = alpha.to_vec();
-            let tab = sc.table.clone();
-            let f: Box<dyn Fn(u8, u8) -> i32> = Box::new(move |a: u8, b: u8| {
-                let i = al.iter().position(|&x| x == a).unwrap();
-                let j = al.iter().position(|&x| x == b).unwrap();
-                tab[i][j]
-            });
+            let f = TabFn { al: alpha.to_vec(), tab: sc.table.clone() };
+            if sc.clip == [MIN_SCORE; 4] && how % 3 == 2 {
+                // the constructors without a Scoring argument
+                return Al::Tab(if how % 4 == 1 {
+                    Aligner::new(sc.go, sc.ge, f, k, w)
+                } else {
+                    Aligner::with_capacity(cap.0, cap.1, sc.go, sc.ge, f, k, w)
+                });
+            }
             let mut s = Scoring::new(sc.go, sc.ge, f);
             // the public hint field need not describe match_fn (the banded aligner only seeds with it)
             if how % 3 == 0 {
@@ -63,6 +66,11 @@ pub enum Entry {
     Semiglobal,
     SemiglobalPrehash,
     Local,
+    // operations on the object itself (no alignment is computed)
+    CloneSelf,
+    CloneFrom,
+    Serde,
+    SetClips([i32; 4]),
 }
 
 impl Entry {
@@ -77,7 +85,14 @@ impl Entry {
             Entry::Semiglobal => "semiglobal",
             Entry::SemiglobalPrehash => "semiglobal_prehash",
             Entry::Local => "local",
+            Entry::CloneSelf => "clone",
+            Entry::CloneFrom => "clone_from",
+            Entry::Serde => "serde",
+            Entry::SetClips(_) => "set_clips",
         }
+    }
+    fn object_op(&self) -> bool {
+        matches!(self, Entry::CloneSelf | Entry::CloneFrom | Entry::Serde | Entry::SetClips(_))
     }
     /// 1 iff the k-mer backbone is computed inside rust-bio from (x, y, k)
     fn internal(&self) -> u8 {
@@ -113,6 +128,7 @@ macro_rules! dispatch {
                 $a.semiglobal_with_prehash($x, $y, &h)
             }
             Entry::Local => $a.local($x, $y),
+            _ => unreachable!(),
         }
     };
 }
@@ -127,7 +143,75 @@ pub fn run(log: &mut Log, tag: &str, alpha: &[u8], sc: &Scheme, how: u64, k: usi
         return;
     }
     let mut al = make(alpha, sc, how, k, w, cap);
-    for (e, x, y) in calls {
+    for (ci, (e, x, y)) in calls.iter().enumerate() {
+        if e.object_op() {
+            let args = match e {
+                Entry::SetClips(c) => json!({"clip": [c[0], c[1], c[2], c[3]]}),
+                _ => json!({}),
+            };
+            let r = log.call(e.name(), args, || {
+                match e {
+                    Entry::CloneSelf => {
+                        let c = al.clone();
+                        al = c;
+                    }
+                    Entry::CloneFrom => {
+                        // another aligner with its own scheme, band parameters, capacity and history
+                        let mut sc2 = sc.clone();
+                        for (i, c) in sc2.clip.iter_mut().enumerate() {
+                            *c = [0, -1, -2, MIN_SCORE, -7][(ci + i + (how as usize)) % 5];
+                        }
+                        sc2.go -= 1;
+                        let mut other = make(alpha, &sc2, how, k + 1, w + 2, (cap.1 + 2, cap.0 + 1));
+                        match &mut other {
+                            Al::Tab(o) => {
+                                o.semiglobal(&alpha[..1], alpha);
+                            }
+                            Al::Par(o) => {
+                                o.semiglobal(&alpha[..1], alpha);
+                            }
+                        }
+                        match (&mut other, &al) {
+                            (Al::Tab(o), Al::Tab(a)) => o.clone_from(a),
+                            (Al::Par(o), Al::Par(a)) => o.clone_from(a),
+                            (o, a) => *o = a.clone(),
+                        }
+                        al = other;
+                    }
+                    Entry::Serde => {
+                        if let Al::Par(a) = &al {
+                            let txt = serde_json::to_string(a).unwrap();
+                            let back: Aligner<MatchParams> = serde_json::from_str(&txt).unwrap();
+                            al = Al::Par(back);
+                        } else {
+                            let c = al.clone();
+                            al = c;
+                        }
+                    }
+                    Entry::SetClips(c) => {
+                        macro_rules! setc {
+                            ($a:expr) => {{
+                                let s = $a.get_mut_scoring();
+                                s.xclip_prefix = c[0];
+                                s.xclip_suffix = c[1];
+                                s.yclip_prefix = c[2];
+                                s.yclip_suffix = c[3];
+                            }};
+                        }
+                        match &mut al {
+                            Al::Tab(a) => setc!(a),
+                            Al::Par(a) => setc!(a),
+                        }
+                    }
+                    _ => {}
+                }
+                json!({})
+            });
+            if r["st"] != "ok" {
+                return;
+            }
+            continue;
+        }
         // "planted" calls: long sequences with a planted copy; logged verbatim, judged by validity,
         // rescoring and the band-size rule only (the optimum is not recomputed at that size)
         let planted = tag == "planted";
@@ -136,7 +220,8 @@ pub fn run(log: &mut Log, tag: &str, alpha: &[u8], sc: &Scheme, how: u64, k: usi
         let args = if big {
             // (big inputs are unary: fill symbol + length describe them completely)
             json!({"x": [], "y": [], "xlen": x.len(), "ylen": y.len(), "big": 1,
-                   "xfill": sym(alpha, x[0]), "yfill": sym(alpha, y[0]),
+                   "xfill": x.first().map(|&b| sym(alpha, b)).unwrap_or(0),
+                   "yfill": y.first().map(|&b| sym(alpha, b)).unwrap_or(0),
                    "internal": e.internal(), "nomatches": e.nomatches()})
         } else {
             json!({"x": syms(alpha, x), "y": syms(alpha, y), "big": if planted { 2 } else { 0 },
@@ -320,6 +405,33 @@ pub fn drive(log: &mut Log) {
             }
             calls.push((e, x, y));
         }
+        // a third of the runs change or copy the object in the middle of its history: clone, clone_from
+        // another aligner, serde round trip, or new clip penalties through get_mut_scoring; then a
+        // fixed-mode call (which overrides and must restore the penalties) and a clip-sensitive custom call
+        if rng.chance(1, 3) {
+            let at = rng.range(1, calls.len() as i64 - 1) as usize;
+            let op = match rng.below(5) {
+                0 => Entry::CloneSelf,
+                1 => Entry::CloneFrom,
+                2 => Entry::Serde,
+                _ => Entry::SetClips([pick_clip(&mut rng), pick_clip(&mut rng), pick_clip(&mut rng), pick_clip(&mut rng)]),
+            };
+            log.oblige(match op {
+                Entry::CloneSelf => "clone_mid_history",
+                Entry::CloneFrom => "clone_from_other_aligner",
+                Entry::Serde => "serde_round_trip",
+                _ => "clips_changed_through_get_mut_scoring",
+            });
+            let x = rng.seq(5, alpha);
+            let mut y = rng.seq(3, alpha);
+            y.extend_from_slice(&x);
+            y.extend(rng.seq(3, alpha));
+            let modecall = [Entry::Global, Entry::Semiglobal, Entry::SemiglobalPrehash, Entry::Local][rng.below(4) as usize].clone();
+            calls.insert(at, (op, vec![], vec![]));
+            calls.insert(at + 1, (Entry::Custom, x.clone(), y.clone()));
+            calls.insert(at + 2, (modecall, x.clone(), y.clone()));
+            calls.insert(at + 3, (Entry::Custom, x, y));
+        }
         let cap = (rng.range(0, 20) as usize, rng.range(0, 20) as usize);
         run(log, "rnd", alpha, &sc, case, k, w, cap, &calls);
     }
@@ -359,6 +471,16 @@ pub fn drive(log: &mut Log) {
                 (Entry::Custom, b"CA".to_vec(), b"AACAA".to_vec()),
                 (Entry::Local, b"AACA".to_vec(), b"ACA".to_vec()),
             ];
+            let mut calls = calls;
+            if ei % 3 == ci {
+                // a degenerate matrix beyond the budget: one sequence empty, the other 5 000 000 symbols
+                // (5 000 001 cells), and the largest one within the budget (4 999 999 symbols)
+                calls.push((entry(ei), vec![], vec![b'A'; 5_000_000]));
+                calls.push((entry(ei), vec![b'C'; 5_000_000], vec![]));
+                calls.push((entry(ei), vec![], vec![b'A'; 4_999_999]));
+                calls.push((Entry::Custom, b"CA".to_vec(), b"AACAA".to_vec()));
+                log.oblige("over_cell_budget_with_an_empty_sequence");
+            }
             log.oblige("over_cell_budget");
             if ci > 0 {
                 log.oblige("over_cell_budget_then_custom_with_clips");
